@@ -324,7 +324,7 @@ func writeEvidence(verif, id, tier string, seed int, res *checkResult, total, pr
 		"govc VC generator (/verif/govc): SSA (golang.org/x/tools v0.29.0, NaiveForm) to SMT-LIB translation",
 		"SMT solvers z3 4.8.12, z3 5.1.0, cvc5 1.0 (first definite answer wins)",
 		"integers: exact (mathematical Int with the wrap of each Go type after every operation; uint8 as 8-bit vectors); int is 64-bit",
-		"heap: closed (every reference loaded from memory was allocated before); pointers of different static struct types do not alias; slices have capacity at most 2^47",
+		"heap: closed (every reference loaded from memory was allocated before); pointers of different static struct types do not alias; no slice has more than 2^40 elements; make() accepts at most 2^47 bytes",
 		"float64 values are uninterpreted; goroutine interleaving only through declared monitors/atomics; channel operations do not block",
 		"sentinel error variables are never reassigned",
 	}
